@@ -20,49 +20,69 @@ EXTENDS Integers, Sequences, FiniteSets
 CONSTANT Defect        \* set of as-built deviations re-created in the model (empty in every registered check)
 
 Nothing == 0
+(* type annotations (comments to TLC) are for the Apalache inductive check in AP_SeqViews.tla, where content is an Int *)
+\* @typeAlias: state = { truth: Int, absHolds: Int, relHolds: Int, absFresh: Bool, relFresh: Bool, iter: Str };
+SeqViewsTypeAliases == TRUE
 
 (* ---- accessors: reading a view regenerates it from the other when stale ---- *)
+\* @type: ($state) => Bool;
 CanRead(s) == s.absFresh \/ s.relFresh
+\* @type: ($state) => $state;
 EnsureAbs(s) == IF s.absFresh THEN s ELSE [s EXCEPT !.absHolds = s.relHolds, !.absFresh = TRUE]
+\* @type: ($state) => $state;
 EnsureRel(s) == IF s.relFresh THEN s ELSE [s EXCEPT !.relHolds = s.absHolds, !.relFresh = TRUE]
 
 (* ---- mutators ---- *)
 (* add_absolute_message, cutoff, quantise, quantise_note_lengths: act on the absolute view *)
+\* @type: ($state, Int) => $state;
 F_AbsMut(s, c) == LET t == EnsureAbs(s) IN [t EXCEPT !.truth = c, !.absHolds = c, !.relFresh = FALSE]
 (* add_relative_message, concatenate, normalise, pad, set_channel, scale, transpose: act on the relative view *)
+\* @type: ($state, Int) => $state;
 F_RelMut(s, c) == LET t == EnsureRel(s) IN [t EXCEPT !.truth = c, !.relHolds = c, !.absFresh = FALSE]
 (* overwrite_*_messages: install new content in one slot, make THAT slot the fresh one, invalidate the other *)
+\* @type: ($state, Int) => $state;
 F_OverwriteAbs(s, c) ==
     [s EXCEPT !.truth = c, !.absHolds = c, !.relFresh = FALSE,
               !.absFresh = IF "OverwriteKeepsStale" \in Defect THEN s.absFresh ELSE TRUE]
+\* @type: ($state, Int) => $state;
 F_OverwriteRel(s, c) ==
     [s EXCEPT !.truth = c, !.relHolds = c, !.absFresh = FALSE,
               !.relFresh = IF "OverwriteKeepsStale" \in Defect THEN s.relFresh ELSE TRUE]
 
 (* ---- reads ---- *)
+\* @type: ($state) => $state;
 F_ReadAbs(s) == EnsureAbs(s)
+\* @type: ($state) => $state;
 F_ReadRel(s) == EnsureRel(s)
+\* @type: ($state) => $state;
 F_Refresh(s) == EnsureRel(EnsureAbs(s))
 (* copy(): copies exactly the fresh slots *)
+\* @type: ($state) => $state;
 F_Copy(s) == [s EXCEPT !.absHolds = IF s.absFresh THEN s.absHolds ELSE Nothing,
                        !.relHolds = IF s.relFresh THEN s.relHolds ELSE Nothing]
 (* invalidate_abs / invalidate_rel: documented for use after a direct edit of the OTHER view *)
+\* @type: ($state) => $state;
 F_InvalidateAbs(s) == [s EXCEPT !.absFresh = FALSE]
+\* @type: ($state) => $state;
 F_InvalidateRel(s) == [s EXCEPT !.relFresh = FALSE]
 
 (* ---- generators messages_abs() / messages_rel() ---- *)
 (* start: read the view; each yield (and the close) invalidates the other view *)
+\* @type: ($state, Str) => $state;
 F_IterYield(s, v) == IF v = "abs" THEN [EnsureAbs(s) EXCEPT !.relFresh = FALSE, !.iter = "abs"]
                      ELSE [EnsureRel(s) EXCEPT !.absFresh = FALSE, !.iter = "rel"]
 (* an in-turn edit of the yielded message changes the content of the iterated view *)
 (* intended design: the other view cannot be trusted after the edit.  As built ("EditKeepsOtherFresh") the other
    view stays marked fresh until the next yield, so a read of it in the same turn returns the old content. *)
+\* @type: ($state, Int) => $state;
 F_IterEdit(s, c) ==
     LET keep == "EditKeepsOtherFresh" \in Defect IN
     IF s.iter = "abs" THEN [s EXCEPT !.truth = c, !.absHolds = c, !.relFresh = IF keep THEN @ ELSE FALSE]
     ELSE [s EXCEPT !.truth = c, !.relHolds = c, !.absFresh = IF keep THEN @ ELSE FALSE]
 (* reading the other view while suspended is legal: it is regenerated, the next yield invalidates it again *)
+\* @type: ($state) => $state;
 F_IterReadOther(s) == IF s.iter = "abs" THEN EnsureRel(s) ELSE EnsureAbs(s)
+\* @type: ($state) => $state;
 F_IterClose(s) == IF s.iter = "abs" THEN [s EXCEPT !.relFresh = FALSE, !.iter = "none"]
                   ELSE [s EXCEPT !.absFresh = FALSE, !.iter = "none"]
 
@@ -86,6 +106,7 @@ Mutating == AbsMutOps \cup RelMutOps \cup CompositeOps
 
 (* legal: every public call on a readable object outside an iteration, except that an explicit
    invalidate_x is documented only for when the other view is current *)
+\* @type: ($state, Str) => Bool;
 Enabled(s, op) == /\ s.iter = "none"
                   /\ (op = "invalidate_abs" => s.relFresh)
                   /\ (op = "invalidate_rel" => s.absFresh)
@@ -94,6 +115,7 @@ IterView(op) == IF op \in {"iter_abs", "iter_abs_edit", "iter_abs_break", "iter_
                            "iter_abs_edit_readother"} THEN "abs" ELSE "rel"
 (* fine-grained generator steps as operations of their own (the trace logs these) *)
 FineOps == {"iter_start_abs", "iter_start_rel", "iter_yield", "iter_edit", "iter_readother", "iter_close"}
+\* @type: ($state, Str, Int) => $state;
 ApplyFine(s, f, c) ==
     CASE f = "iter_start_abs" -> F_IterYield(s, "abs")
       [] f = "iter_start_rel" -> F_IterYield(s, "rel")
@@ -103,6 +125,7 @@ ApplyFine(s, f, c) ==
       [] f = "iter_close" -> F_IterClose(s)
 (* a whole generator use = a script of fine steps: two yields (or one and a break), with optional in-turn edit
    and optional read of the other view *)
+\* @type: (Str) => Seq(Str);
 IterScript(op) ==
     LET v == IterView(op)
         start == IF v = "abs" THEN "iter_start_abs" ELSE "iter_start_rel"
@@ -112,12 +135,17 @@ IterScript(op) ==
         brk == op \in {"iter_abs_break", "iter_rel_break"}
     IN <<start>> \o (IF edits THEN <<"iter_edit">> ELSE <<>>) \o (IF reads THEN <<"iter_readother">> ELSE <<>>)
        \o (IF brk THEN <<>> ELSE <<"iter_yield">>) \o <<"iter_close">>
-RECURSIVE RunScript(_, _, _)
-RunScript(s, script, c) == IF script = <<>> THEN s
-                           ELSE RunScript(ApplyFine(s, Head(script), c), Tail(script), c)
+(* scripts have at most six steps; unrolled so that the module has no recursive operator (Apalache) *)
+\* @type: ($state, Seq(Str), Int) => $state;
+RunScript(s, script, c) ==
+    LET \* @type: ($state, Int) => $state;
+        step(st, i) == IF i <= Len(script) THEN ApplyFine(st, script[i], c) ELSE st
+    IN step(step(step(step(step(step(s, 1), 2), 3), 4), 5), 6)
+\* @type: ($state, Str, Int) => $state;
 F_Iter(s, op, c) == RunScript(s, IterScript(op), c)
 
 (* c = the content after the operation (= s.truth for non-mutating operations) *)
+\* @type: ($state, Str, Int) => $state;
 Apply(s, op, c) ==
     CASE op \in AbsMutOps -> F_AbsMut(s, c)
       [] op \in RelMutOps -> F_RelMut(s, c)
@@ -136,12 +164,17 @@ Apply(s, op, c) ==
       [] op = "invalidate_rel" -> F_InvalidateRel(s)
 
 (* ---- the properties, as predicates on a state ---- *)
+\* @type: ($state) => Bool;
 Coherent(s) == /\ s.absFresh => s.absHolds = s.truth
                /\ s.relFresh => s.relHolds = s.truth
+\* @type: ($state) => Bool;
 Readable(s) == CanRead(s)
 (* what a read of either view returns *)
+\* @type: ($state) => Int;
 ViewAbs(s) == EnsureAbs(s).absHolds
+\* @type: ($state) => Int;
 ViewRel(s) == EnsureRel(s).relHolds
+\* @type: ($state) => Bool;
 Visible(s) == Readable(s) => (ViewAbs(s) = s.truth /\ ViewRel(s) = s.truth)
 
 ---------------------------------------------------------------------------
